@@ -3,6 +3,7 @@ package main
 import (
 	"context"
 	"fmt"
+	"strings"
 	"math/rand"
 	"sort"
 	"time"
@@ -30,7 +31,7 @@ func init() {
 	fw.Register(&fw.Property{
 		ID:    "C03",
 		Level: "exploration",
-		Rule: "ENUMERATED matrix: write list {creator default, explicit [creator], explicit [creator, replica], empty->default, wildcard (control)} x access controller {ipfs via Create/Open; simple and orbitdb via their public constructors on a store built with the public store constructor} x author {honest non-writer, copied writer id, copied identity block with victim key, copied identity block with own key} x route {local write call, announced head, exchange on connect, manual Sync, ancestor via next of a colluding writer's head, ancestor via refs} x store type, with the forged entry at a PRNG position among valid heads; thorough repeats with 5 seeds of surrounding history. Each cell: forged entry delivered to a replica holding honest entries, then an honest marker write through the same path must take effect, then the oracle. " +
+		Rule: "ENUMERATED matrix: write list {creator default, explicit [creator], explicit [creator, replica], empty->default, wildcard (control)} x access controller {ipfs via Create/Open; simple and orbitdb via their public constructors on a store built with the public store constructor} x author {honest non-writer, copied writer id, copied identity block with victim key, copied identity block with own key} x route {local write call, local write after an Open during which the k-th needed block (k=1..3) did not arrive before the deadline, announced head, exchange on connect, manual Sync, ancestor via next of a colluding writer's head, ancestor via refs} x store type, with the forged entry at a PRNG position among valid heads; thorough repeats with 5 seeds of surrounding history. Each cell: forged entry delivered to a replica holding honest entries, then an honest marker write through the same path must take effect, then the oracle. " +
 			"distinct = cell (list, controller, author kind, route, store type, position); non-trivial = the forged entry was really delivered on the route (wire / call observed) and the marker took effect",
 		Assumptions: []string{"ground truth about the true author comes from construction (the harness knows which key signed)", "hashing, CBOR and signature primitives of go-ipfs-log are trusted base", "revocation is not part of the property"},
 		Cases:       c03Cases,
@@ -42,7 +43,7 @@ func init() {
 }
 
 var c03Lists = []string{"default", "creator", "creator+replica", "empty", "wildcard"}
-var c03Routes = []string{"local-write", "announce", "exchange", "sync", "ancestor-next", "ancestor-refs"}
+var c03Routes = []string{"local-write", "local-write-after-open-missing-block-1", "local-write-after-open-missing-block-2", "local-write-after-open-missing-block-3", "announce", "exchange", "sync", "ancestor-next", "ancestor-refs"}
 
 func c03Cases(tier string, seed int64) []fw.Case {
 	var out []fw.Case
@@ -63,8 +64,11 @@ func c03Cases(tier string, seed int64) []fw.Case {
 						if ac != "ipfs" && (list == "empty" || list == "default") {
 							continue
 						}
-						if route == "local-write" && kind != fNonWriter {
+						if strings.HasPrefix(route, "local-write") && kind != fNonWriter {
 							continue // a local call cannot forge author fields
+						}
+						if strings.HasPrefix(route, "local-write-after") && (ac != "ipfs" || list == "wildcard") {
+							continue
 						}
 						if list == "wildcard" && kind != fNonWriter {
 							continue // control only
@@ -266,6 +270,55 @@ func c03Run(c fw.Case) fw.Verdict {
 	// ---- the attack ----
 	var forged *entry.Entry
 	delivered := false
+	if strings.HasPrefix(route, "local-write-after-open-missing-block-") {
+		// a fresh non-writer opens the address while the k-th block it needs does not
+		// arrive before the deadline: Open may fail; if it succeeds the peer must still
+		// be treated as a non-writer
+		k := int(route[len(route)-1] - '0')
+		F, err := e.W.AddPeer(sim.PeerOpts{})
+		if err != nil {
+			return fw.Verdict{Status: fw.Inconclusive, What: err.Error()}
+		}
+		n := 0
+		e.W.SetGate(func(ctx context.Context, to, from *sim.Peer, _ cid.Cid) error {
+			if to != F {
+				return nil
+			}
+			n++
+			if n == k {
+				<-ctx.Done()
+				return ctx.Err()
+			}
+			return nil
+		})
+		octx, ocancel := context.WithTimeout(bg, 400*time.Millisecond)
+		sF, oerr := F.DB.Open(octx, w.addr, &iface.CreateDBOptions{})
+		ocancel()
+		e.W.SetGate(nil)
+		v.Count("faulty_opens", 1)
+		v.NonTrivial = true
+		if oerr != nil {
+			v.Count("faulty_opens_refused", 1)
+			v.Status = fw.Held
+			v.Sample = map[string]interface{}{"ac": ac, "list": list, "route": route, "open": "refused: " + oerr.Error()}
+			return v
+		}
+		F.Track(sF)
+		before := TakeSnap(typ, sF, F.Idx)
+		_, werr := ApplyOp(bg, sF, honestOp(typ, 100))
+		e.W.Flush()
+		after := TakeSnap(typ, sF, F.Idx)
+		if werr == nil || !eqStrings(before.Order, after.Order) {
+			return fw.Verdict{Status: fw.Violated, Key: "local-write-by-non-writer-accepted/after-faulty-open", NonTrivial: true, Sig: v.Sig,
+				What: fmt.Sprintf("a non-writer opened the database while the %d-th block needed by Open did not arrive; Open succeeded and its local write was accepted (error=%v, log %d -> %d entries)", k, werr, len(before.Order), len(after.Order))}
+		}
+		if s := TakeSnap(typ, w.sR, w.R.Idx); !eqStrings(s.Order, base.Order) {
+			return fw.Verdict{Status: fw.Violated, Key: "refused-local-write-replicated/ac=" + ac, What: "entries of a refused local write appeared on another replica", NonTrivial: true, Sig: v.Sig}
+		}
+		v.Status = fw.Held
+		v.Sample = map[string]interface{}{"ac": ac, "list": list, "route": route, "open": "succeeded, write refused"}
+		return v
+	}
 	switch route {
 	case "local-write":
 		before := TakeSnap(typ, w.sN, w.N.Idx)
